@@ -349,6 +349,16 @@ def run(pid, prop, known, tier, seed, replay, n_override, t0, log, scratch):
     cb = coq_build(pid, log)
     P_ok = cb["ok"] and not gate
     P_msg = cb["failing"] or ("; ".join(gate[:5]) if gate else "")
+    coqchk_note = "not run (quick tier)"
+    if tier == "thorough" and cb["ok"] and not replay:
+        # independent re-check of the compiled property file and everything it depends on
+        with Lock("coq"):
+            rc, out = sh(f"timeout 1700 coqchk -o -silent -Q . V V.Props.{pid}", cwd=COQ, timeout=1800)
+        m = re.search(r"\* Axioms:(.*?)\n\s*\n", out, re.S)
+        axioms_txt = m.group(1).strip() if m else "?"
+        coqchk_note = f"coqchk exit={rc}; Axioms: {axioms_txt}"
+        if rc != 0 or axioms_txt != "<none>":
+            P_ok, P_msg = False, "coqchk: " + coqchk_note + " " + out[-500:]
     model_ok = os.path.exists(f"{COQ}/Model/{pid}.vo") or all(
         os.path.exists(f"{COQ}/{m.replace('.', '/')}.vo") for m in prop.get("coq_imports", []) or ["Model." + pid])
 
@@ -503,6 +513,7 @@ def run(pid, prop, known, tier, seed, replay, n_override, t0, log, scratch):
             "checker_cmd": f"cd /verif/coq && make Props/{pid}.vo  (coqc 8.16.1; Print Assumptions after each theorem; grep gate for Admitted/Axiom/...)",
             "trusted_base": tb,
             "theorems": cb["theorems"],
+            "coqchk": coqchk_note,
             "props_sha256": sha(f"{COQ}/Props/{pid}.v"),
             "consts_sha256": sha(f"{COQ}/Gen/Consts.v"),
             "evaluations": evaluated,
